@@ -688,6 +688,8 @@ primaryexpr(struct scope *s)
 		/* an unprefixed constant has the value of a char object, converted to int */
 		if (tok.lit[0] == '\'' && typechar.u.basic.issigned && chr <= 0xff)
 			e = mkconstexpr(t, (signed char)chr);
+		else if (t->u.basic.issigned)
+			e = mkconstexpr(t, (int_least32_t)chr);
 		else
 			e = mkconstexpr(t, chr);
 		if (*src != '\'')
